@@ -52,6 +52,10 @@ func expected(res *prog.Result, rb *prog.ReadBack, mask bool) (qs []pdf.Referenc
 		seen[ref] = true
 		w := want[ref]
 		switch {
+		case w == nil && res.UnsureRefs[ref]:
+			// a Put under a number picked blindly was refused: the number may belong to an object
+			// the Writer made for itself (an indirect /Length)
+			return
 		case w == nil:
 			obs[ref] = "null"
 		case w.IsStream && rb.OpenErr != nil:
@@ -127,6 +131,13 @@ func main() {
 	// pattern of filters with and without parameters) and every shape of a chain declared in the
 	// caller's dictionary under 0, 1, 2 filters of OpenStream
 	specials := prog.ChainSpecials()
+	// ... and the sweeps along the reader's limits: whatever the Writer accepts there and closes
+	// must be a valid file, with nothing left of the calls it refused
+	for _, sp := range prog.LimitSpecials(e.Thorough) {
+		if !sp.Plan.NoModel && sp.Plan.Limit <= 5 {
+			specials = append(specials, sp)
+		}
+	}
 	for i := 0; i < n+len(specials); i++ {
 		id := fmt.Sprintf("f%d", i)
 		k := i
@@ -177,6 +188,15 @@ func main() {
 			cfg, plan = specials[i-n].Cfg, specials[i-n].Plan
 		}
 		res := prog.Run(e.Rand, cfg, plan)
+		if id == os.Getenv("VERIF_DEBUG_ID") {
+			for _, d := range res.Desc {
+				if len(d) > 200 {
+					d = d[:200]
+				}
+				fmt.Fprintln(os.Stderr, d)
+			}
+			fmt.Fprintln(os.Stderr, res.RefusedText, res.ErrIdx, res.ErrText)
+		}
 		if res.ErrIdx != -1 || res.File == nil {
 			e.Count(false, "", "rejected-program")
 			continue
